@@ -175,6 +175,16 @@ def path(f, st, depth=0):
             if tp is not None:
                 return tp
         return res
+    if k == "BinaryOperator" and st.get("op") in ("->*", ".*"):
+        pf = ptm_field(f, st)
+        if pf is None:
+            return None
+        b = path(f, pf[0], depth + 1)
+        if b is None:
+            return None
+        if pf[1]:
+            return (b[1:] + "." + pf[2]) if b.startswith("&") else (b + "->" + pf[2])
+        return (b[1:] + "->" + pf[2]) if b.startswith("*") else (b + "." + pf[2])
     if k == "UnaryOperator":
         op = st["op"]
         ch = f.children(st)
@@ -228,6 +238,51 @@ def path(f, st, depth=0):
     return None
 
 
+def ptm_field(f, st):
+    """for `obj->*pm` / `obj.*pm` where pm is (a parameter of an inlined helper bound to) `&Class::field`:
+    (object expression, arrow?, field name), else None"""
+    st = unwrap(f, st)
+    if st is None or st["k"] != "BinaryOperator" or st.get("op") not in ("->*", ".*"):
+        return None
+    ch = f.children(st)
+    if len(ch) != 2:
+        return None
+    pm = unwrap(f, ch[1])
+    for _ in range(4):
+        if pm is None:
+            return None
+        if pm["k"] == "DeclRefExpr" and pm["d"].get("k") in ("local", "param"):
+            init = None
+            for s_ in f.stmts.values():
+                if s_["k"] == "DeclStmt":
+                    for d_ in s_["decls"]:
+                        if d_.get("id") == pm["d"].get("id") and d_.get("init"):
+                            init = f.s(d_["init"])
+            pm = unwrap(f, init) if init is not None else None
+            continue
+        break
+    if pm is None or pm["k"] != "UnaryOperator" or pm.get("op") != "&":
+        return None
+    fd = unwrap(f, f.children(pm)[0]) if f.children(pm) else None
+    if fd is None or fd["k"] != "DeclRefExpr" or fd["d"].get("k") != "field":
+        return None
+    return ch[0], st["op"] == "->*", fd["d"]["name"]
+
+
+def _tmpl_of_type(t):
+    """class template name (template arguments removed) of a (pointer / reference to a) class type spelling"""
+    t = strip_cvref(t).rstrip("*& ").strip()
+    out, depth = [], 0
+    for ch_ in t:
+        if ch_ == "<":
+            depth += 1
+        elif ch_ == ">":
+            depth -= 1
+        elif depth == 0:
+            out.append(ch_)
+    return "".join(out).strip()
+
+
 def _ref_target(f, name):
     """initialiser of the local reference with declaration id `name` when it binds an lvalue (not a temporary)"""
     cache = getattr(f, "_ref_cache", None)
@@ -247,30 +302,47 @@ def _ref_target(f, name):
                     elif d.get("inl") and not d.get("ref") and d.get("init") and d.get("type", "").rstrip().endswith(("*", "*const", "* const")):
                         # pointer parameter of an inlined helper, bound to the argument: the same pointer value for the whole
                         # helper body as long as the helper never reassigns it
-                        if d.get("inl_this") or _only_rvalue_uses(f, lambda x: x["k"] == "DeclRefExpr" and x["d"].get("id") == d["id"]):
+                        iu_ = unwrap(f, f.s(d["init"]))
+                        named = iu_ is not None and iu_["k"] in ("MemberExpr", "DeclRefExpr", "UnaryOperator", "CXXThisExpr")
+                        # (a pointer that is the RESULT of a call - an atomic load, get() - is a value, not a name)
+                        if d.get("inl_this") or (named and _only_rvalue_uses(f, lambda x: x["k"] == "DeclRefExpr" and x["d"].get("id") == d["id"], True)):
                             cache[d["id"]] = f.s(d["init"])
                     elif not d.get("ref") and d.get("init") and d.get("k") == "local" and \
                             d.get("type", "").rstrip().endswith(("*", "*const", "* const")):
                         # a pointer local that is a never-reassigned copy of a member pointer this function only reads
                         # (`node* const self = m_zombie;`) denotes the same object as the member for the whole body
                         iu = unwrap(f, f.s(d["init"]))
-                        if iu is not None and iu["k"] == "MemberExpr" and iu["m"].get("is_field") and \
-                                (unwrap(f, f.s(iu.get("base"))) or {}).get("k") == "CXXThisExpr" and \
-                                _only_rvalue_uses(f, lambda x: x["k"] == "DeclRefExpr" and x["d"].get("id") == d["id"]) and \
+                        base_ = unwrap(f, f.s(iu.get("base"))) if iu is not None and iu["k"] == "MemberExpr" else None
+                        # the member pointer of `this` or of a parameter object (`iter.m_current`), read-only in this function
+                        stable_base = base_ is not None and (base_["k"] == "CXXThisExpr" or
+                                                            (base_["k"] == "DeclRefExpr" and base_["d"].get("k") == "param"))
+                        if iu is not None and iu["k"] == "MemberExpr" and iu["m"].get("is_field") and stable_base and \
+                                _only_rvalue_uses(f, lambda x: x["k"] == "DeclRefExpr" and x["d"].get("id") == d["id"], True) and \
                                 _only_rvalue_uses(f, lambda x: x["k"] == "MemberExpr" and x["m"].get("id") == iu["m"].get("id")):
                             cache[d["id"]] = f.s(d["init"])
         f._ref_cache = cache
     return cache.get(name)
 
 
-def _only_rvalue_uses(f, pred):
+def _only_rvalue_uses(f, pred, allow_forward=False):
+    """every use of the matched variable / member reads its value.  allow_forward: handing the variable to a library
+    function through a forwarding reference (`construct(alloc, p, current)`) counts as a read as well - nothing in the
+    standard library assigns through such a parameter"""
     for st in f.stmts.values():
         if pred(st):
             par = f.par(st)
             while par is not None and par["k"] == "ParenExpr":
                 par = f.par(par)
-            if par is None or par["k"] != "ImplicitCastExpr" or par.get("ck") != "LValueToRValue":
-                return False
+            if par is not None and par["k"] == "ImplicitCastExpr" and par.get("ck") == "LValueToRValue":
+                continue
+            if allow_forward and par is not None:
+                up = par
+                while up is not None and up["k"] in ("ImplicitCastExpr", "ParenExpr") and up.get("ck") in (None, "NoOp"):
+                    up = f.par(up)
+                if up is not None and up["k"] in CALLS + CTORS and not (up.get("callee") or {}).get("inrepo") and \
+                        (up.get("callee") or {}).get("fq", "").startswith("std::"):
+                    continue
+            return False
     return True
 
 
@@ -692,9 +764,10 @@ class LockAnalysis:
                     if v is not None and v.st == MAYBE:
                         stt[key] = LockVal(v.mutex, v.mode, new)
 
-    def _infeasible_succ(self, blk):
-        """index of the successor that contradicts an assumed member value, or None"""
-        if not self.assume or not blk.term or len(blk.succs) != 2 or not blk.term.get("cond"):
+    def _infeasible_succ(self, blk, state=None):
+        """index of the successor that contradicts an assumed member value - or what is KNOWN about a lock object whose
+        ownership the branch tests (`if (!lk.owns_lock())` right after a blocking acquisition) -, or None"""
+        if not blk.term or len(blk.succs) != 2 or not blk.term.get("cond"):
             return None
         f = self.f
         c = unwrap(f, f.s(blk.term["cond"]))
@@ -702,6 +775,16 @@ class LockAnalysis:
         while c is not None and c["k"] == "UnaryOperator" and c["op"] == "!":
             neg = not neg
             c = unwrap(f, f.children(c)[0])
+        if state is not None and c is not None and c["k"] == "CXXMemberCallExpr" and \
+                (c.get("callee") or {}).get("name") in ("owns_lock", "operator bool") and c.get("obj"):
+            o = f.s(c["obj"])
+            if o is not None and lock_class(o.get("t", "")):
+                v = state.get(self.key_of_expr(o))
+                if v is not None and v.st in (HELD, UNOWNED):
+                    val = (v.st == HELD) != neg
+                    return 1 if val else 0
+        if not self.assume:
+            return None
         p = path(f, c) if c is not None else None
         if p in self.assume:
             val = self.assume[p] != neg       # value of the whole condition
@@ -779,7 +862,7 @@ class LockAnalysis:
             outs = self.refine(blk, state)
             for idx_, o_ in enumerate(outs):
                 self.edge_out[(b, idx_)] = o_
-            dead = self._infeasible_succ(blk)
+            dead = self._infeasible_succ(blk, state)
             for idx, s in enumerate(blk.succs):
                 if s is None or idx == dead:
                     continue
@@ -870,6 +953,9 @@ class Engine:
             if not ch:
                 ok = False
                 continue
+            rp = g.pos_of(r)
+            if rp is not None and rp[0] not in la.block_in and len(rets) > 1:
+                continue        # on a path the lock state rules out (e.g. 'not owned' right after a blocking lock)
             a = self._summ_expr(g, la, ch[0], g.pos_of(r), None)
             if a is None:
                 ok = False
@@ -939,8 +1025,16 @@ class Engine:
                                      blocking=False, cond=cond, site=g.loc(e)),
                                 dict(data=sp[1], mutex=sub.mutex, mode=sub.mode if sub.mutex else mode, st=UNOWNED,
                                      blocking=False, cond=cond, site=g.loc(e))]
+                # the handle adopts a lock object: it was a blocking acquisition iff that object was locked by one
+                src_ = lk
+                while src_ is not None and ((src_["k"] in CALLS and callee_fq(src_) in PASS_THROUGH_FUNCS) or
+                                            (src_["k"] in CTORS and len(src_["args"]) == 1 and lock_class(src_.get("t", "")))):
+                    src_ = unwrap(g, g.s(src_["args"][0]))
+                lkey = la.key_of_expr(src_) if src_ is not None else None
+                evs = [ev for ev in la.acquire_events if ev[1] == lkey]
+                blk_ = bool(evs) and all(ev[3] is True for ev in evs) and sub.st == HELD
                 return [dict(data=data, mutex=sub.mutex, mode=sub.mode if sub.mutex else mode,
-                             st=sub.st, blocking=False, cond=cond, site=g.loc(e))]
+                             st=sub.st, blocking=blk_, cond=cond, site=g.loc(e))]
             if lc:
                 v = self._lock_value(g, la, e, g.pos_of(e) or pos)
                 if v is None:
@@ -957,7 +1051,9 @@ class Engine:
             return [dict(a, cond=cond if cond else a.get("cond")) for a in s]
         if k == "DeclRefExpr" and e.get("d", {}).get("inl_ret"):
             out = []
-            for src in inl_ret_sources(g, e["d"]["id"]):
+            srcs = inl_ret_sources(g, e["d"]["id"])
+            live = [x for x in srcs if g.pos_of(x) is None or g.pos_of(x)[0] in la.block_in]
+            for src in (live or srcs):
                 a = self._summ_expr(g, la, src, g.pos_of(src) or pos, cond)
                 if a is None:
                     return None
@@ -1377,6 +1473,10 @@ def atomic_field_of(f, op):
         o = unwrap(f, f.children(o)[0])
     if o is not None and o["k"] == "MemberExpr" and o["m"].get("is_field"):
         return (o["m"].get("rec"), o["m"]["name"])
+    if o is not None and o["k"] == "BinaryOperator" and o.get("op") in ("->*", ".*"):
+        pf = ptm_field(f, o)
+        if pf is not None:
+            return (_tmpl_of_type(pf[0].get("t", "")), pf[2])
     if o is not None and o["k"] == "DeclRefExpr" and o["d"].get("k") == "local" and o["d"].get("ref"):
         # a local reference bound directly to an atomic member
         tgt = unwrap(f, _ref_target(f, o["d"]["id"]))
